@@ -785,7 +785,7 @@ var stdSizes = []int{8, 16, 88, 256}
 // ================================================================ TestProp
 
 func TestProp(t *testing.T) {
-	pbt.Describe("Exhaustive sweeps: all 256 palette indices against the xterm formula; every key of ColorValues; every name of tcell.ColorNames and of the embedded 148-entry CSS table; an enumerated set of default/special/not-valid/unknown Color values. Conversion identities (NewHexColor/NewRGBColor/Hex/RGB/Valid/IsRGB/TrueColor/CSS/GetColor(#rrggbb, both cases)/FromImageColor for RGBA, NRGBA, RGBA64) over all 2^24 RGB values in thorough (split over shards) and a stratified 2^20 sample (one value per 7/7/6-bit cell) plus boundary values in quick. FindColor over all 2^24 RGB colours in thorough (split over shards) and a stratified 2^16 sample (one per 5/6/5-bit cell) plus every palette value and its +-1 channel neighbours in quick, against the first 8, 16, 88 and 256 palette colours; plus rapid-generated palettes (empty, 1..40 entries mixing palette-index and RGB colours, duplicates, same-RGB-different-Color entries) with colours that are uniform, members, small perturbations of entries, midpoints of two entries, or palette-index colours. imagecolor: rapid values of the standard library's colour types (RGBA64 with arbitrary 16-bit channels, NRGBA/NRGBA64 with any alpha, Gray16, YCbCr, CMYK ...): FromImageColor must give the 8-bit reduction that color.RGBAModel gives. Non-trivial: conversions/palette/names/invalid = every case; FindColor = no palette entry has the same RGB value as the colour (so the answer is not a zero-distance match). Dense sweeps count every item in evaluations but only hash every k-th item (and every failure) into distinct_nontrivial.",
+	pbt.Describe("Exhaustive sweeps: all 256 palette indices against the xterm formula; every key of ColorValues; every name of tcell.ColorNames and of the embedded 148-entry CSS table; an enumerated set of default/special/not-valid/unknown Color values. Conversion identities (NewHexColor/NewRGBColor/Hex/RGB/Valid/IsRGB/TrueColor/CSS/GetColor(#rrggbb, both cases)/FromImageColor for RGBA, NRGBA, RGBA64) over all 2^24 RGB values in thorough (split over shards) and a stratified 2^20 sample (one value per 7/7/6-bit cell) plus boundary values in quick. FindColor over all 2^24 RGB colours in thorough (split over shards) and a stratified 2^16 sample (one per 5/6/5-bit cell) plus every palette value and its +-1 channel neighbours in quick, against the first 8, 16, 88 and 256 palette colours; plus rapid-generated palettes (empty, 1..40 entries mixing palette-index and RGB colours, duplicates, same-RGB-different-Color entries) with colours that are uniform, members, small perturbations of entries, midpoints of two entries, or palette-index colours. imagecolor: rapid values of the standard library's colour types (RGBA64 with arbitrary 16-bit channels, NRGBA/NRGBA64 with any alpha, Gray16, YCbCr, CMYK ...): FromImageColor must give the 8-bit reduction that color.RGBAModel gives. tables-after-screens: terminfo screens on descriptions with 8, 16, 88, 256 and direct colours are initialised, drawn on and finalised (fake tty), then ColorValues must be unchanged and the palette sweep is repeated (the tables are process-wide). Non-trivial: conversions/palette/names/invalid = every case; FindColor = no palette entry has the same RGB value as the colour (so the answer is not a zero-distance match). Dense sweeps count every item in evaluations but only hash every k-th item (and every failure) into distinct_nontrivial.",
 		"CIE76 oracle: 8-bit sRGB -> linear (IEC 61966-2-1 transfer function) -> XYZ with the matrix derived from the sRGB primaries and D65 white chromaticities -> CIELAB with reference white (0.95047, 1, 1.08883), float64; FindColor's answer may be farther than the oracle's best entry by at most a factor 1+1e-9 plus 1e-9 (floating-point differences between implementations)",
 		"the 16 system colours are the xterm/W3C basic colours as documented in color.go (maroon=800000 ... silver=c0c0c0, gray=808080 ...)",
 		"'every W3C colour name maps to its CSS value' is read as: every CSS Color Level 4 name that tcell offers maps to the CSS value; CSS names tcell lacks are counted (css_names_missing_in_tcell), names tcell offers beyond CSS are only checked for GetColor/ColorNames consistency and validity",
@@ -1083,4 +1083,5 @@ func TestProp(t *testing.T) {
 		pbt.AddExtra("findcolor_std256_answer_in_grey_ramp", region[2])
 		pbt.Extra("cpu_s_findcolor_std_sweep", time.Since(t0).Seconds())
 	}
+	afterScreens(t)
 }
